@@ -390,3 +390,217 @@ def names_closure(scope: Scope, expr: ast.AST, stop=(), ignore_ctx=()) -> Set[st
                         work.append(st.value)
                         control(st)
     return out
+
+
+# ----------------------------------------------------------------------------- dispatch on an enum parameter
+def dispatch_arms(prog, fn: FuncInfo, tparam: str, enum_name: str):
+    """Arms of a dispatch on the parameter `tparam` over the members of `enum_name`.
+
+    Recognised spellings (all equivalent): an if/elif chain, consecutive `if t == M: return ...` statements
+    (early returns), `match t: case Enum.M: return ...`, and a table lookup `TABLE[t](args)` / `TABLE[t]` where
+    TABLE is a dict literal keyed by enum members (local, class attribute or module global).
+    Returns (arms, complete): arms maps member -> ast.Return (real or synthesised for the table form);
+    complete is False when some statement was not understood (then "member has no arm" cannot be concluded).
+    The first arm for a member wins (later ones are unreachable)."""
+    arms: Dict[str, ast.Return] = {}
+    state = {"complete": True}
+    sc = Scope(fn.node)
+
+    def member_of(test):
+        r = compare_with_pivot(test, lambda x: txt(x) == tparam or txt(x) == tparam + ".value")
+        if r and r[0] == "==":
+            return enum_member(r[1], enum_name)
+        if isinstance(test, ast.Compare) and len(test.ops) == 1 and isinstance(test.ops[0], ast.Is) and txt(test.left) == tparam:
+            return enum_member(test.comparators[0], enum_name)
+        return None
+
+    def table_of(expr):
+        d = sc.resolve(expr)
+        if isinstance(d, ast.Name):
+            for st in fn.module.tree.body:
+                if isinstance(st, ast.Assign) and any(isinstance(t, ast.Name) and t.id == d.id for t in st.targets):
+                    d = st.value
+        if isinstance(d, ast.Attribute) and isinstance(d.value, ast.Name) and d.value.id in ("self", "cls") | ({fn.cls.name} if fn.cls else set()) and fn.cls:
+            v = prog.class_attr(fn.cls, d.attr)
+            if v is not None:
+                d = v
+        return d if isinstance(d, ast.Dict) else None
+
+    def walk(stmts) -> bool:
+        """returns True when control cannot fall through the end of stmts"""
+        for s in astx.strip_logging(stmts):
+            if isinstance(s, ast.Expr) and isinstance(s.value, ast.Constant):
+                continue
+            if isinstance(s, ast.If):
+                mem = member_of(s.test)
+                if mem is None:
+                    state["complete"] = False
+                    return False
+                body = astx.strip_logging(s.body)
+                if len(body) == 1 and isinstance(body[0], ast.Return):
+                    arms.setdefault(mem, body[0])
+                else:
+                    rs = [x for b in body for x in ast.walk(b) if isinstance(x, ast.Return)]
+                    if len(rs) == 1 and isinstance(body[-1], ast.Return):
+                        r0 = ast.Return(value=Scope(fn.node).resolve(body[-1].value) if body[-1].value is not None else None)
+                        ast.copy_location(r0, body[-1])
+                        arms.setdefault(mem, r0)
+                    else:
+                        state["complete"] = False
+                if s.orelse:
+                    if walk(s.orelse):
+                        return True
+                continue
+            if hasattr(ast, "Match") and isinstance(s, ast.Match) and txt(s.subject) in (tparam, tparam + ".value"):
+                for case in s.cases:
+                    p = case.pattern
+                    if isinstance(p, ast.MatchValue) and case.guard is None:
+                        mem = enum_member(p.value, enum_name)
+                        body = astx.strip_logging(case.body)
+                        if mem is not None and len(body) == 1 and isinstance(body[0], ast.Return):
+                            arms.setdefault(mem, body[0])
+                            continue
+                    if isinstance(p, ast.MatchAs) and p.pattern is None:
+                        arms.setdefault("<default>", case.body[-1])
+                        continue
+                    state["complete"] = False
+                continue
+            if isinstance(s, ast.Raise):
+                arms.setdefault("<default>", s)
+                return True
+            if isinstance(s, ast.Return):
+                v = sc.resolve(s.value) if s.value is not None else None
+                # TABLE[t](args) / TABLE[t]
+                call_args = None
+                sub = v
+                if isinstance(v, ast.Call) and isinstance(v.func, ast.Subscript):
+                    sub, call_args = v.func, v
+                if isinstance(sub, ast.Subscript) and txt(sub.slice) in (tparam, tparam + ".value"):
+                    d = table_of(sub.value)
+                    if d is not None and all(k is not None for k in d.keys):
+                        for k, val in zip(d.keys, d.values):
+                            mem = enum_member(k, enum_name)
+                            if mem is None:
+                                state["complete"] = False
+                                continue
+                            rv = val if call_args is None else ast.Call(func=val, args=call_args.args, keywords=call_args.keywords)
+                            r0 = ast.Return(value=rv)
+                            ast.copy_location(r0, s)
+                            ast.fix_missing_locations(r0)
+                            arms.setdefault(mem, r0)
+                        return True
+                arms.setdefault("<default>", s)
+                if v is not None and tparam in astx.names_in(v):
+                    state["complete"] = False   # a default that still looks at the type: not understood
+                return True
+            if isinstance(s, (ast.Assign, ast.AnnAssign)) and not (tparam in {x.id for t in (s.targets if isinstance(s, ast.Assign) else [s.target]) for x in ast.walk(t) if isinstance(x, ast.Name)}):
+                continue  # a local definition (resolved through Scope where used)
+            state["complete"] = False
+            return False
+        return False
+
+    walk(fn.body)
+    return arms, state["complete"]
+
+
+# ----------------------------------------------------------------------------- path conditions
+def _always_jumps(stmts) -> bool:
+    if not stmts:
+        return False
+    last = stmts[-1]
+    if isinstance(last, (ast.Return, ast.Continue, ast.Break, ast.Raise)):
+        return True
+    if isinstance(last, ast.If) and last.orelse:
+        return _always_jumps(last.body) and _always_jumps(last.orelse)
+    return False
+
+
+def path_conditions(parents, node: ast.AST, upto: Optional[ast.AST] = None):
+    """Conditions under which `node` is reached, relative to the entry of `upto` (a loop: one iteration of its
+    body; a function: its body; None: the function root):  [(test_expr, polarity)], outermost first.
+
+    Both spellings of a guard are understood: an enclosing `if T:` (polarity by branch) and a preceding sibling
+    `if T: ...<always leaves the block: continue / break / return / raise>` (polarity False for what follows;
+    symmetric for an `else` branch that always leaves).  Loops between node and upto contribute nothing (their
+    own guards are relative to their own iterations) but the walk continues through them."""
+    out = []
+    child = parents.stmt_of(node) if not isinstance(node, ast.stmt) else node
+    cur = child
+    while cur is not None and cur is not upto:
+        par = parents.parent(cur)
+        if par is None:
+            break
+        # which block of par holds cur?
+        for field in ("body", "orelse", "finalbody", "handlers"):
+            blk = getattr(par, field, None)
+            if isinstance(blk, list) and any(cur is s for s in blk):
+                idx = [i for i, s in enumerate(blk) if s is cur][0]
+                conds_here = []
+                for s in blk[:idx]:
+                    if isinstance(s, ast.If):
+                        if _always_jumps(s.body) and not _always_jumps(s.orelse):
+                            conds_here.append((s.test, False))
+                        elif s.orelse and _always_jumps(s.orelse) and not _always_jumps(s.body):
+                            conds_here.append((s.test, True))
+                if isinstance(par, ast.If) and field in ("body", "orelse"):
+                    conds_here.insert(0, (par.test, field == "body"))
+                if isinstance(par, ast.While) and field == "body":
+                    conds_here.insert(0, (par.test, True))
+                out = conds_here + out
+                break
+        if isinstance(par, (ast.FunctionDef, ast.AsyncFunctionDef, ast.Lambda)):
+            break
+        cur = par
+    return out
+
+
+def cond_atoms(test: ast.AST, polarity: bool):
+    """Flatten a condition known to be `polarity` into atomic facts [(expr, polarity)]:
+    (A and B) true -> A true, B true; (A or B) false -> A false, B false; not X flips."""
+    while isinstance(test, ast.UnaryOp) and isinstance(test.op, ast.Not):
+        test, polarity = test.operand, not polarity
+    if isinstance(test, ast.BoolOp):
+        if (isinstance(test.op, ast.And) and polarity) or (isinstance(test.op, ast.Or) and not polarity):
+            out = []
+            for v in test.values:
+                out += cond_atoms(v, polarity)
+            return out
+    return [(test, polarity)]
+
+
+def known_facts(parents, node, upto=None):
+    """Atomic facts holding when node executes (see path_conditions / cond_atoms)."""
+    out = []
+    for t, pol in path_conditions(parents, node, upto):
+        out += cond_atoms(t, pol)
+    return out
+
+
+def canon_fact(expr: ast.AST, polarity: bool):
+    """(text, polarity) with the comparison spelled canonically: `a != b` -> ('a == b', not p) with operands sorted,
+    `x not in S` -> ('x in S', not p), `a > b` -> ('b < a', p), `a >= b` -> ('b <= a', p); `not e` flips."""
+    while isinstance(expr, ast.UnaryOp) and isinstance(expr.op, ast.Not):
+        expr, polarity = expr.operand, not polarity
+    if isinstance(expr, ast.Compare) and len(expr.ops) == 1:
+        op, l, r = expr.ops[0], txt(expr.left), txt(expr.comparators[0])
+        if isinstance(op, (ast.Eq, ast.NotEq)):
+            a, b = sorted([l, r])
+            return f"{a} == {b}", polarity == isinstance(op, ast.Eq)
+        if isinstance(op, (ast.Is, ast.IsNot)):
+            a, b = sorted([l, r])
+            return f"{a} is {b}", polarity == isinstance(op, ast.Is)
+        if isinstance(op, (ast.In, ast.NotIn)):
+            return f"{l} in {r}", polarity == isinstance(op, ast.In)
+        if isinstance(op, ast.Lt):
+            return f"{l} < {r}", polarity
+        if isinstance(op, ast.Gt):
+            return f"{r} < {l}", polarity
+        if isinstance(op, ast.LtE):
+            return f"{r} < {l}", not polarity
+        if isinstance(op, ast.GtE):
+            return f"{l} < {r}", not polarity
+    return txt(expr), polarity
+
+
+def canon_facts(facts):
+    return {canon_fact(e, p) for e, p in facts}
